@@ -915,6 +915,21 @@ def same_multiset(got, want, floaty):
     return True
 
 
+def mean_std_ok(mean, std, vals, floaty):
+    """
+    mean/std returned by evaluate_policy vs the exact episode returns `vals`, within the DERIVED bound:
+      * float stream: every return may be off by d = 1e-5 * max(1, |r|) (the declared tolerance of that stream);
+        mean and std are 1-Lipschitz in the sup norm of such a perturbation (|std(x+e) - std(x)| <= std(e) <= max|e|);
+      * both streams: with VecMonitor the returns are np.float32, so np.mean / np.std run in float32:
+        (N + 4) * 2^-23 * max(1, max|r|) covers the rounding of the sum, of the division, of x - mean and of the root.
+    """
+    if not vals:
+        return math.isnan(mean) and math.isnan(std)
+    big = max(1.0, max(abs(v) for v in vals))
+    tol = (1e-5 * big if floaty else 0.0) + (len(vals) + 4) * 2.0 ** -23 * big + 1e-9
+    return abs(mean - float(np.mean(vals))) <= tol and abs(std - float(np.std(vals))) <= tol
+
+
 def even_splits(N, n):
     base, extra = divmod(N, n)
     for sub in itertools.combinations(range(n), extra):
@@ -961,12 +976,7 @@ def oracle_eval(ctx, case, r):
                     break
             else:
                 vals = [float(x[0]) for x in want]
-                if N == 0:
-                    ok = math.isnan(c["mean"]) and math.isnan(c["std"])
-                else:
-                    ok = abs(c["mean"] - float(np.mean(vals))) <= 1e-6 * max(1.0, abs(float(np.mean(vals)))) and \
-                        abs(c["std"] - float(np.std(vals))) <= 1e-6 * max(1.0, float(np.std(vals)))
-                if ok:
+                if mean_std_ok(c["mean"], c["std"], vals, floaty):
                     found = True
                     break
         if not found:
@@ -1012,11 +1022,10 @@ def cmp_eval(ctx, case, r, mouts):
                 return
         else:
             vals = [float(x[0]) for x in m_out]
-            if vals:
-                if abs(c["mean"] - float(np.mean(vals))) > 1e-6 * max(1.0, abs(float(np.mean(vals)))) or \
-                        abs(c["std"] - float(np.std(vals))) > 1e-6 * max(1.0, float(np.std(vals))):
-                    rep.disagree("eval", case, [c["mean"], c["std"]], [float(np.mean(vals)), float(np.std(vals))], "mean/std")
-                    return
+            if not mean_std_ok(c["mean"], c["std"], vals, floaty):
+                rep.disagree("eval", case, [c["mean"], c["std"]],
+                             [float(np.mean(vals)), float(np.std(vals))] if vals else ["nan", "nan"], "mean/std")
+                return
         if case["wrap"] != "monitor" or not floaty:
             # closed-form specification (own accumulation, no rounding) == loop result; with Monitor the 6-digit rounding
             # separates them on non-dyadic rewards
